@@ -1,4 +1,5 @@
 import TsVerif.C10.Model
+import TsVerif.Common.LengthAlgebra
 /-!
 # C10 judge and correspondence, evaluated on dumps of real trees
 
@@ -160,5 +161,31 @@ mutual
     | c :: rest, l, B =>
       laokCheck c && decide (l + tbJ c + c.data.lookahead ≤ B) && laokCheckL rest (l + tbJ c) B
 end
+
+end TsVerif.C10
+
+/-! ## Row/column consistency with a text, decided on real trees (hypothesis of `edit_consistent`) -/
+namespace TsVerif.C10
+open TsGen TsVerif
+
+mutual
+  /-- `R` is the text from the node's frame (start of its padding) on.  Every stored padding/size is
+  the `lengthOf` (bytes, newline-counted row/column) of the bytes it covers; children sit at
+  consecutive frames. -/
+  def consCheckAt (R : List Nat) : Tree → Bool
+    | .mk d ks =>
+      decide (d.padding.bytes + d.size.bytes ≤ R.length) &&
+      decide (d.padding = lengthOf (R.take d.padding.bytes)) &&
+      decide (d.size = lengthOf ((R.drop d.padding.bytes).take d.size.bytes)) &&
+      consCheckAtL R ks
+  def consCheckAtL (R : List Nat) : List Tree → Bool
+    | [] => true
+    | c :: rest => consCheckAt R c && consCheckAtL (R.drop (tbJ c)) rest
+end
+
+/-- Decidable version of `Cons T t A` (Text.lean): the subtree `t` whose padding starts at absolute
+byte `A` of text `T` stores exactly the row/column extents that counting newlines in `T` gives. -/
+def consCheck (T : List Nat) (t : Tree) (A : Nat) : Bool :=
+  decide (A ≤ T.length) && consCheckAt (T.drop A) t
 
 end TsVerif.C10
